@@ -95,7 +95,7 @@ class C02Sketch(Scenario):
 SPEC = PropSpec(
     prop="C02",
     scenarios=[(1, C02Sketch)],
-    runs={"quick": 8000, "thorough": 300000},
+    runs={"quick": 20000, "thorough": 500000},
     rule=("THIN (no fault or schedule to inject; the simulator owns only the hash strategy).  one run = a min-mode "
           "sketch (CountMinSketch, HeavyHitters, StreamThreshold) of width {1,2,3,5,8,50} x depth 1..5 or "
           "confidence/error sizing, one of 7 hash strategies incl. a range-squeezed one that makes rows collide, and "
